@@ -278,7 +278,9 @@ def fitted(rng, name, d=None, opts=None, train=None, **kw):
   if name == 'RCA_Supervised':
     cs = o.get('chunk_size', 2)
     cap = int(sum(c // cs for c in np.bincount(tr['y'][tr['y'] >= 0])))
-    o['n_chunks'] = max(1, min(o.get('n_chunks', 100), cap))
+    # enough chunked points for an invertible within-chunk covariance: n_chunks * (chunk_size - 1) >= d + 2 when possible
+    need = int(np.ceil((dd + 2) / max(1, cs - 1)))
+    o['n_chunks'] = max(1, min(max(o.get('n_chunks', 100), need), cap))
   for attempt in range(14):
     est = CLS[name](**o)
     try:
